@@ -204,7 +204,12 @@ class Cell:
     def __getstate__(self):
         """Return state of the Cell with connections set to empty."""
         # fixme, once we shift to 3.11, replace this with super. __getstate__
-        state = (self.__dict__, {k: getattr(self, k) for k in self.__slots__})
+        # the cached `neighborhood` (a cached_property: it lives in the instance dict) refers to the neighboring cells,
+        # whose cached neighborhoods refer to theirs, and so on: like the connections it is left out and recomputed on demand
+        state = (
+            {k: v for k, v in self.__dict__.items() if k != "neighborhood"},
+            {k: getattr(self, k) for k in self.__slots__ if k != "__dict__"},
+        )
         state[1][
             "connections"
         ] = {}  # replace this with empty connections to avoid infinite recursion error in pickle/deepcopy
